@@ -48,6 +48,6 @@ let () =
           incr drift;
           if v.v_later_accepted then incr later_acc;
           if v.v_changed_on_error then incr chg_err;
-          Printf.printf "DRIFT %s later-parse-accepted=%b fields-changed-on-error=%b\n" line v.v_later_accepted v.v_changed_on_error end
+          Printf.printf "DRIFT %s\n" line end  (* exactly the case line: the runner matches it against the vm_compute sample *)
     | _ -> ());
   Printf.printf "STATS cases=%d specfail=%d mismatch=%d drift=%d fields=%d skipped=%d failed_parses=%d later_parse_accepted=%d fields_changed_on_error=%d\n" !cases !specfail !mismatch !drift !fields !skipped !failed !later_acc !chg_err
